@@ -224,6 +224,13 @@ func runC04(c *Ctx) {
 				}
 				// a v1 generic token's kind is its top-level type: keep it generic
 				x.Type = v1.ClaimType([]string{"", "generic", "my_custom_kind"}[g.rng.Intn(3)])
+				if x.Data != nil && g.rng.Intn(3) == 0 {
+					// the free-form data may use the names the re-homing writes to
+					x.Data["type"] = "inner"
+					if g.rng.Intn(2) == 0 {
+						x.Data["tags"] = []interface{}{"inner-tag"}
+					}
+				}
 				src, s = x, kr.by[[]string{"operator", "account", "user", "server", "cluster"}[g.rng.Intn(5)]]
 			}
 			ty1 = schemaV1Builder.Of(reflect.TypeOf(src).Elem())
@@ -246,6 +253,36 @@ func runC04(c *Ctx) {
 				inp["decoded_kind"] = dynKind(d)
 				c.violation("C04: a v1 token decodes to another kind", inp)
 				continue
+			}
+			// every v1 token through DecodeGeneric: accepted, the v1 kind (top-level type) is the kind reported,
+			// the v1 tags are carried in the data, the standard fields are kept
+			{
+				c.sum.ImplChecks++
+				gg, err := jwt.DecodeGeneric(tok)
+				cd1 := src.Claims()
+				if err != nil || gg == nil {
+					inp["error"] = fmt.Sprint(err)
+					c.violation("C04: DecodeGeneric refuses a token produced by the v1 encoder", inp)
+					continue
+				}
+				wantKind := string(cd1.Type)
+				gotKind, _ := gg.Data["type"].(string) // (ClaimType() maps custom kinds to "generic"; the data keeps the text)
+				if wantKind != "" && (gotKind != wantKind || (kind != "generic" && string(gg.ClaimType()) != wantKind)) {
+					inp["generic_kind"], inp["v1_kind"] = gotKind, wantKind
+					c.violation("C04: DecodeGeneric of a v1 token reports another kind than the token's", inp)
+					continue
+				}
+				if len(cd1.Tags) != 0 && canonString(reflect.ValueOf(gg.Data["tags"])) != canonString(reflect.ValueOf(jwt.TagList(cd1.Tags))) {
+					inp["generic_tags"] = fmt.Sprint(gg.Data["tags"])
+					c.violation("C04: DecodeGeneric of a v1 token loses the tags", inp)
+					continue
+				}
+				e := &jwt.ClaimsData{}
+				expStd(e, cd1)
+				if canonString(reflect.ValueOf(e).Elem()) != canonString(reflect.ValueOf(&gg.ClaimsData).Elem()) {
+					c.violation("C04: DecodeGeneric of a v1 token changes the standard fields", inp)
+					continue
+				}
 			}
 			var got string
 			var dg *jwt.GenericClaims
